@@ -344,7 +344,7 @@ def ev_single(case, rec):
     ev(case, rec)
 
 
-SUBCHECKS = [Sub('files', gen, ev_single, chunk=1, floor=1000, guard=True)]
+SUBCHECKS = [Sub('files', gen, ev_single, chunk=1, floor=1000, guard=True, envs=6)]
 
 
 def bounds(tier, seed):
